@@ -171,6 +171,12 @@ def bailout_family():
             for x in suffixes:
                 out.append(p + s + x)
     # print, register a label, print again through the label (output captured then abandoned)
+    # high stack indices (renumbering of sparse indices)
+    d300, d200, d17 = '.' * 300, '.' * 200, '.' * 17
+    out += ['형.. 흑%s 형... 항%s 흑%s 항. 흑%s 항. 항.' % (d300, d200, d200, d300),
+            '형.. 흑%s 형... 흑%s 항. 흑%s 항.' % (d17, d300, d17),
+            '형.. 항%s 형... 항%s 흑%s 항. 흑%s 항. 흑... 항.' % (d300, d17, d17, d300),
+            '형.. 흑%s♥ 항. 형... 흑%s 형%s♥' % (d300, d17, d300)]
     out += ['항.♥ 형. 항.♥', '형. 항.♥ 형.. 항.♥ 항.', '흑. 형..?', '형... 항. 흑. 형..? 형.', '형.. 항.♥ 흑 항.♥']
     return out
 
